@@ -810,7 +810,7 @@ func (f *folder) evalInstr(env map[ssa.Value]fval, mem map[*ssa.Alloc]fval, in s
 			}
 			// what the callee would have done to the memory is not known
 			tn := fname(target)
-			if !diagnosticCallee(tn) {
+			if !diagnosticCallee(tn) && !strings.HasPrefix(tn, "fmt.Sprint") && tn != "fmt.Errorf" {
 				f.failedCalls = append(f.failedCalls, tn+": "+err.Error())
 			}
 			hasPtr := len(ptrArgs) > 0 || bind != nil
